@@ -12,6 +12,11 @@ Theorem judge_tu_net_sound : forall rec cfg m n M rc v sub G f c r rest,
 Proof.
   intros rec cfg m n M rc v sub G f c r rest Hdec Hcert HJ.
   unfold judge_tu_net in HJ. rewrite Hdec in HJ. rewrite Hcert in HJ. cbn [negb] in HJ.
+  destruct ((rc =? 0) && (v =? 1) && (match sub with None => true | Some _ => false end)) eqn:Efast.
+  { apply andb_true_iff in Efast. destruct Efast as [Efast Es]. apply andb_true_iff in Efast. destruct Efast as [E0 E1].
+    apply Z.eqb_eq in E0, E1. subst rc v. split; [reflexivity|].
+    split; [eapply NetworkTU.network_cert_tu_bf; exact Hcert|].
+    split; [intros H; discriminate H|]. intros _. split; [reflexivity|]. destruct sub; [discriminate|reflexivity]. }
   destruct (rc =? 0) eqn:Erc; cbn [negb] in HJ; [|discriminate].
   apply Z.eqb_eq in Erc. split; [exact Erc|].
   split; [eapply NetworkTU.network_cert_tu_bf; exact Hcert|].
